@@ -228,6 +228,16 @@ func lowVersion(rt *rapid.T, l string, p *Pkg) string {
 	return p.Vers[i].V
 }
 
+// preWithRelease returns a pre-release of p whose release is the next version, or "".
+func preWithRelease(p *Pkg) string {
+	for i := 0; i+1 < len(p.Vers); i++ {
+		if v := p.Vers[i].V; isPre(v) && p.Vers[i+1].V == v[:strings.Index(v, "-")] {
+			return v
+		}
+	}
+	return ""
+}
+
 func genNpmManifest(rt *rapid.T, u []Pkg) Manifest {
 	nd := draw(rt, "ndirect", 2, 1, 2, 3, 3, 4, 5)
 	if nd > len(u) {
@@ -247,7 +257,13 @@ func genNpmManifest(rt *rapid.T, u []Pkg) Manifest {
 		used[i] = true
 		p := &u[i]
 		sec := draw(rt, l+".section", "dependencies", "dependencies", "dependencies", "dependencies", "devDependencies", "devDependencies", "optionalDependencies")
-		req := genReq(rt, l, "npm", p, lowVersion(rt, l, p), true)
+		t := lowVersion(rt, l, p)
+		// wave 8 (C11-w8-1): now and then start from a pre-release whose release exists, so relaxing
+		// from a pre-release under a per-package level is reached by the quick tier too
+		if pv := preWithRelease(p); pv != "" && chance(rt, l+".frompre", 1, 6) {
+			t = pv
+		}
+		req := genReq(rt, l, "npm", p, t, true)
 		key, spec := p.Name, req
 		if chance(rt, l+".alias", 1, 10) {
 			key, spec = fmt.Sprintf("al-%d", k), "npm:"+p.Name+"@"+req
